@@ -54,7 +54,7 @@ func runC07(r *Run) {
 	r.rule("C07.R3", "injectivity guards: storing a key is dominated by !IsOperatorRemovingKeyFromChainID and !keyInUse(chain, the stored consensus address); the previous key is recorded only when none is recorded yet", 4)
 	r.rule("C07.R4", "reverse-lookup retention: DeleteOperatorAddressForChainIDAndConsAddr is called only from the dogfood pruning loop and from the hooks' arms where the key is not in the validator set", 3)
 	r.rule("C07.R5", "pruning schedule: a replaced key that is in the validator set is queued at GetUnbondingCompletionEpoch; an opt-out of an active key registers the opt-out information", 2)
-	r.rule("C07.R6", "slash, jail and validator lookup by consensus address resolve the operator through the reverse lookup", 5)
+	r.rule("C07.R6", "slash, jail and validator lookup by consensus address resolve the operator through the reverse lookup and are gated by it alone; only active operators opt out", 7)
 	r.rule("C07.R7", "every chain-id argument handed to the operator keeper from the dogfood module derives from ChainIDWithoutRevision (or is a hook parameter)", 8)
 
 	names := []string{"BytePrefixForOperatorAndChainIDToConsKey", "BytePrefixForOperatorAndChainIDToPrevConsKey", "BytePrefixForChainIDAndOperatorToConsKey", "BytePrefixForChainIDAndConsKeyToOperator", "BytePrefixForOperatorKeyRemovalForChainID"}
@@ -326,6 +326,69 @@ func runC07(r *Run) {
 			continue
 		}
 		r.check(len(v.CallsNamed("GetOperatorAddressForChainIDAndConsAddr")) >= 1, "C07.R6", "operator|"+nm, v.pos(v.Decl), nm+" resolves the operator through the reverse lookup", nm+" no longer uses GetOperatorAddressForChainIDAndConsAddr")
+	}
+	// jailing by consensus address is gated by the two lookups only: a key whose operator opted out stays
+	// jailable while its lookup record is retained
+	if v := w.View("x/operator/keeper", "Keeper.SetJailedState"); v != nil {
+		n := 0
+		for _, c := range v.CallsNamed("HandleOptedInfo") {
+			n++
+			var extra []string
+			for _, ft := range v.factsAt(c, false) {
+				if o := v.outcome(ft); o != nil && (o.Callee.Name() == "GetOperatorAddressForChainIDAndConsAddr" || o.Callee.Name() == "IsAVSByChainID") && o.Success {
+					continue
+				}
+				extra = append(extra, ifNot(ft.Truth)+exprString(ft.Atom))
+			}
+			okFlag := false
+			if len(c.Args) == 4 {
+				for _, d := range v.resolveDefs(c.Args[3], 0) {
+					fl, isLit := stripParens(d).(*ast.FuncLit)
+					if !isLit || len(fl.Body.List) != 1 {
+						continue
+					}
+					if as, isAs := fl.Body.List[0].(*ast.AssignStmt); isAs && len(as.Lhs) == 1 && lastField(as.Lhs[0]) == "Jailed" && isParamOf(v, as.Rhs[0]) {
+						okFlag = true
+					}
+				}
+			}
+			r.check(len(extra) == 0 && okFlag, "C07.R6", "jail|only-gated-by-lookup", v.pos(c), "every consensus address that still resolves can be jailed and unjailed: the flag is written under the two lookups and nothing else", "SetJailedState writes the flag only under "+strings.Join(extra, ", ")+" (or not unconditionally in the handler): a key being removed resolves to its operator but can no longer be jailed")
+		}
+		if n == 0 {
+			r.bad("C07.R6", "jail|only-gated-by-lookup", v.pos(v.Decl), "HandleOptedInfo call", "SetJailedState no longer updates the opted info through HandleOptedInfo")
+		}
+	}
+	// only an active (opted-in and not jailed) operator may opt out: the removal hook treats a key that is
+	// absent from the validator set as never used and releases it at once, which is wrong for a jailed operator
+	if v := w.View("x/operator/keeper", "Keeper.OptOut"); v == nil {
+		r.bad("C07.R6", "optout|only-active", "-", "anchor", "Keeper.OptOut not found")
+	} else {
+		op, avs := paramName(v, 1), paramName(v, 2)
+		ok := v.rejectsWhen(v.Decl.Body, func(f Fact) bool {
+			c, isC := stripParens(f.Atom).(*ast.CallExpr)
+			return isC && !f.Truth && v.calleeName(c) == "IsActive" && len(c.Args) == 3 && exprString(c.Args[1]) == op && exprString(c.Args[2]) == avs
+		}, nil)
+		r.check(ok, "C07.R6", "optout|only-active", v.pos(v.Decl), "OptOut is rejected unless the operator is active (opted in and not jailed) for the AVS", "OptOut does not reject every operator that is not active: a jailed operator's key has left the validator set, so the removal hook releases it at once instead of keeping it resolvable for the unbonding epochs")
+	}
+	// pruning happens once, at the maturing epoch end: the key-pruning queue obligations of C16
+	if r.Prop == "C07" {
+		sub := NewRun(r.W, "C16", r.Tier, r.Seed)
+		runC16(sub)
+		n := 0
+		for _, o := range sub.Obs {
+			if !strings.Contains(o.Key, "key-prunings") {
+				continue
+			}
+			n++
+			if o.Status == "ok" {
+				r.ok("C07.R5", o.Key, o.Pos, o.Desc)
+			} else {
+				r.bad("C07.R5", o.Key, o.Pos, o.Desc, o.Detail)
+			}
+		}
+		if n == 0 {
+			r.bad("C07.R5", "key-prunings|none", "-", "C16 key-pruning queue obligations present", "no obligations")
+		}
 	}
 	// ---- R7
 	dk := w.Pkg("x/dogfood/keeper")
